@@ -547,6 +547,16 @@ func abstract(m rconn.Msg, inbox, rname, cid string) (rec, string) {
 				bad = append(bad, "unknown system.reset member "+k)
 			}
 		}
+	case m.Subject == "system.tokenReset":
+		msg["to"] = "tokenreset"
+		msg["kind"] = "tokenReset"
+		var obj map[string]json.RawMessage
+		var tids []string
+		var subj string
+		if json.Unmarshal(m.Data, &obj) != nil || len(obj) != 2 || string(obj["tids"]) == "null" || json.Unmarshal(obj["tids"], &tids) != nil || len(tids) == 0 ||
+			json.Unmarshal(obj["subject"], &subj) != nil || subj == "" {
+			bad = append(bad, fmt.Sprintf("system.tokenReset without a non-empty array of token ids and a subject: %s", m.Data))
+		}
 	case m.Subject == "conn."+cid+".token" && cid != "":
 		msg["to"] = "token"
 		msg["kind"] = "token"
@@ -576,6 +586,11 @@ func (badWrapped) MarshalJSON() ([]byte, error) {
 	return nil, fmt.Errorf("lazy lookup: %w", &res.Error{Code: "store.unavailable", Message: "Store unavailable"})
 }
 
+// a value whose encoder panics (a nil field dereferenced in MarshalJSON)
+type panicMarshal struct{ p *int }
+
+func (v panicMarshal) MarshalJSON() ([]byte, error) { return []byte(fmt.Sprint(*v.p)), nil }
+
 // doStep performs one script step on the request.
 func doStep(r *res.Request, st string) {
 	if strings.HasPrefix(st, "try-") {
@@ -593,6 +608,12 @@ func doStep(r *res.Request, st string) {
 		r.OK(nil)
 	case "ok-bad":
 		r.OK(make(chan int))
+	case "ok-panic-marshal":
+		r.OK(map[string]interface{}{"v": panicMarshal{}})
+	case "model-panic-marshal":
+		r.Model(map[string]interface{}{"v": panicMarshal{}})
+	case "error-panic-data":
+		r.Error(&res.Error{Code: "custom.error", Message: "with data", Data: panicMarshal{}})
 	case "ok-bad-reserr":
 		r.OK(map[string]interface{}{"ref": badReserr{}})
 	case "ok-bad-wrapped":
@@ -721,6 +742,16 @@ func doStep(r *res.Request, st string) {
 		r.ReaccessEvent()
 	case "ev-reset":
 		r.ResetEvent()
+	case "tokenreset":
+		r.Service().TokenReset("auth.test.renew", "tid1", "tid2")
+	case "tokenreset-empty":
+		r.Service().TokenReset("auth.test.renew", "")
+	case "tokenreset-mixed":
+		r.Service().TokenReset("auth.test.renew", "tid1", "", "tid3")
+	case "tokenreset-dup":
+		r.Service().TokenReset("auth.test.renew", "tid1", "tid1")
+	case "tokenreset-none":
+		r.Service().TokenReset("auth.test.renew")
 	case "value":
 		r.Value()
 	case "requirevalue-missing":
@@ -744,12 +775,12 @@ func doStep(r *res.Request, st string) {
 }
 
 var replySteps = map[string][]string{
-	"access": {"access", "access-none", "accessdenied", "accessgranted", "notfound", "invalidquery", "error-res", "error-plain", "error-res-ctl", "invalidquery-ctl"},
-	"get":    {"model", "model-bad-reserr", "collection-bad-wrapped", "querymodel", "collection", "model-bad", "notfound", "invalidquery", "error-res", "error-plain", "error-res-ctl", "error-plain-ctl"},
+	"access": {"access", "error-panic-data", "access-none", "accessdenied", "accessgranted", "notfound", "invalidquery", "error-res", "error-plain", "error-res-ctl", "invalidquery-ctl"},
+	"get":    {"model", "model-panic-marshal", "error-panic-data", "model-bad-reserr", "collection-bad-wrapped", "querymodel", "collection", "model-bad", "notfound", "invalidquery", "error-res", "error-plain", "error-res-ctl", "error-plain-ctl"},
 	"new":    {"new", "new-bad", "notfound", "methodnotfound", "invalidparams", "error-res"},
-	"call":   {"ok", "ok-nil", "ok-bad", "ok-bad-reserr", "ok-bad-wrapped", "resource", "resource-bad", "notfound", "methodnotfound", "invalidparams", "invalidparams-msg", "invalidquery", "error-res", "error-plain", "error-res-ctl", "error-plain-ctl", "invalidparams-ctl", "invalidquery-ctl"},
+	"call":   {"ok", "ok-nil", "ok-bad", "ok-panic-marshal", "error-panic-data", "ok-bad-reserr", "ok-bad-wrapped", "resource", "resource-bad", "notfound", "methodnotfound", "invalidparams", "invalidparams-msg", "invalidquery", "error-res", "error-plain", "error-res-ctl", "error-plain-ctl", "invalidparams-ctl", "invalidquery-ctl"},
 }
-var otherSteps = []string{"ev-dollar", "ev-punct", "ev-empty", "ev-space", "ev-wild", "ev-gt", "ev-q", "ev-del", "ev-dot", "timeout-max", "timeout-sub", "timeout-zero", "ev-custom-bad", "ev-change-bad", "ev-add-bad", "timeout", "timeout-neg", "ev-custom", "ev-reserved", "ev-malformed", "ev-change", "ev-change-empty", "ev-add", "ev-add-neg", "ev-remove",
+var otherSteps = []string{"tokenreset", "tokenreset-empty", "tokenreset-mixed", "tokenreset-dup", "tokenreset-none", "ev-dollar", "ev-punct", "ev-empty", "ev-space", "ev-wild", "ev-gt", "ev-q", "ev-del", "ev-dot", "timeout-max", "timeout-sub", "timeout-zero", "ev-custom-bad", "ev-change-bad", "ev-add-bad", "timeout", "timeout-neg", "ev-custom", "ev-reserved", "ev-malformed", "ev-change", "ev-change-empty", "ev-add", "ev-add-neg", "ev-remove",
 	"ev-remove-neg", "ev-create", "ev-delete", "ev-reaccess", "ev-reset", "panic-res", "panic-err", "panic-str", "panic-int", "panic-nilerr", "panic-nil", "panic-str-ctl",
 	"try-ev-custom", "try-ev-change", "try-ev-add", "try-ev-remove", "try-ev-create", "try-ev-delete", "try-ok", "try-panic-str", "try-ev-reserved"}
 
